@@ -34,7 +34,7 @@ MANIFEST = {
 }
 RULE = ("histories of subscribe / renew by service / renew by SID / renew all / unsubscribe by service / by SID / unsubscribe all "
         "over 1..3 real UpnpService objects against a scripted publisher (200, 200 with new / same / empty / no SID, granted "
-        "timeout other / infinite / absent / not a Second-N / garbage, 4xx/5xx, UpnpConnectionError, UpnpConnectionTimeoutError); "
+        "timeout other / infinite / absent / not a Second-N / garbage, 4xx/5xx incl. codes outside http.HTTPStatus, odd 2xx/3xx, UpnpConnectionError, UpnpConnectionTimeoutError); "
         "after each call every request seen by the publisher (with its answer), the result / exception class, "
         "service_for_sid for every SID in play and sid_for_service for every service are compared with the model and judged. "
         "non-trivial = at least one SID was granted and later renewed, replaced, lost or unsubscribed")
@@ -214,14 +214,14 @@ EXH_CORE = [
     ["sub", 1, 1800, [R(200, "uuid:b")]],
     ["sub", 1, 600, [R(200, "uuid:a", "Second-infinite")]],          # the same SID granted to another service
     ["sub", 0, 1800, [R(200, None, "Second-300")]],                    # no SID
-    ["sub", 0, 1800, [R(503, "uuid:c")]],                                # refused, although a SID header is present
+    ["sub", 0, 1800, [R(599, "uuid:c")]],                                # refused, although a SID header is present
     ["resub", "s", 0, 1800, [R(200, "uuid:a", "Second-120")]],
     ["resub", "s", 0, 900, [R(200, "uuid:c")]],                        # answered with a new SID
     ["resub", "i", "uuid:a", 1800, [R(412), R(200, "uuid:d", "Second-60")]],   # refused -> fresh subscription
     ["resub", "s", 1, 1800, [CONN]],                                   # unreachable
-    ["resuball", [R(200), R(500), R(200, "uuid:c"), TMO]],
+    ["resuball", [R(200), R(499), R(200, "uuid:c"), TMO]],
     ["unsub", "s", 0, [R(200)]],
-    ["unsub", "i", "uuid:b", [R(500)]],
+    ["unsub", "i", "uuid:b", [R(509)]],
     ["unsub", "i", "uuid:a", [CONN]],
     ["unsuball", [R(200), R(412)]],
 ]
@@ -229,11 +229,14 @@ EXH_MORE = [
     ["sub", 0, 1800, [CONN]],
     ["sub", 1, 1800, [TMO]],
     ["sub", 1, 1800, [R(404)]],
+    ["sub", 1, 1800, [R(299, "uuid:b")]],                              # an odd 2xx is not 200: refused
+    ["resub", "s", 1, 1800, [R(499), R(200, "uuid:d")]],               # status codes outside http.HTTPStatus
+    ["unsub", "s", 0, [R(399)]],
     ["resub", "s", 0, 1800, [R(500, "uuid:d", "Second-5"), R(412, "uuid:b")]],   # refusals carrying SID / TIMEOUT headers
     ["sub", 0, 86405, [R(200, "", "1800")]],                          # empty SID; TIMEOUT without Second-
     ["resub", "s", 0, 1800, [R(200, "")]],                             # empty SID on renewal = keep
     ["resub", "s", 1, 1800, [R(404), R(200, None)]],                   # fallback without SID
-    ["resub", "s", 0, 1800, [R(500), CONN]],                           # fallback unreachable
+    ["resub", "s", 0, 1800, [R(520), CONN]],                           # fallback unreachable
     ["resub", "i", "uuid:b", 1800, [R(200, "uuid:a", "Second-infinite")]],  # new SID collides
     ["resub", "i", "uuid:c", 1800, [TMO]],
     ["resub", "i", "uuid:a", 1800, [R(200, "uuid:b", "Second-abc")]],  # garbage timeout after a SID swap (F09b)
@@ -263,7 +266,7 @@ def rand_react(rng, renew: bool):
     if c < 11:
         return R(200, None, rng.choice(TMO_HEADERS_OK))
     if c < 15:
-        return R(rng.choice([400, 404, 412, 500, 503, 204, 301]), rng.choice([None, None, rng.choice(SIDS[:4])]),
+        return R(rng.choice([400, 404, 412, 500, 503, 204, 301, 499, 509, 599, 299, 399, 199, 600, 999]), rng.choice([None, None, rng.choice(SIDS[:4])]),
                  rng.choice([None, None, "Second-60"]))
     if c < 18:
         return list(CONN)
@@ -305,6 +308,11 @@ CORPUS = [
     {"nsvc": 2, "ops": [["sub", 0, 1800, [R(200, "uuid:a")]], ["resub", "s", 0, 1800, [R(200, "uuid:b")]], ["resub", "s", 0, 1800, [R(200, "uuid:a")]],
                         ["unsub", "i", "uuid:a", [R(200)]], ["sub", 0, 1800, [R(200, "uuid:a")]], ["sub", 0, 1800, [R(200, "uuid:a")]],
                         ["sub", 1, 1800, [R(200, "uuid:a")]], ["unsub", "i", "uuid:a", [R(200)]], ["unsub", "i", "uuid:a", [R(200)]]]},
+    # round 4: refusals with status codes outside http.HTTPStatus (499, 509, 599, 299 …) on subscribe / renew / unsubscribe: the
+    # refused renewal must still fall back and the dropped SID must not stay routed
+    {"nsvc": 2, "ops": [["sub", 0, 1800, [R(200, "uuid:a")]], ["sub", 1, 1800, [R(299, "uuid:b")]], ["resub", "s", 0, 1800, [R(499), R(200, "uuid:c")]],
+                        ["resub", "i", "uuid:c", 1800, [R(599), R(509)]], ["sub", 1, 1800, [R(200, "uuid:b")]], ["unsub", "i", "uuid:b", [R(799)]],
+                        ["sub", 0, 1800, [R(200, "uuid:a")]], ["resuball", [R(499), R(200, "uuid:d")]], ["unsuball", [R(599)]]]},
     # timeouts longer than a day (timedelta.seconds drops the days), empty SID
     {"nsvc": 1, "ops": [["sub", 0, 86405, [R(200, "", "Second-infinite")]], ["resub", "s", 0, 86405, []], ["resub", "i", "", 90000, [R(200)]]]},
     # garbage granted timeouts (F09b: used to raise half-way; judged except for the returned timeout value)
